@@ -405,18 +405,20 @@ CHECKS += [
               "boundaries and neighbour orders 1-2 against an independent minimal-image neighbour relation (row-major numbering) - structural comparison; (b) transverse_ising "
               "and heisenberg with SYMBOLIC couplings (per-order lists and full coupling matrices): z3 proves every Pauli-word coefficient of the returned operator equal to the "
               "textbook sum over the independent neighbour pairs, and Hermiticity, for all coupling values > 1e-3.",
-         note=PROOF_NOTE + " Category 'other' (partial): non-Cartesian lattices, fermionic models (fermi_hubbard, emery, haldane), kitaev and spin_hamiltonian are outside; the lattice "
-              "comparison itself involves no solver.",
+         note=PROOF_NOTE + " Category 'other' (partial): non-Cartesian lattices, fermionic models (fermi_hubbard, emery, haldane), kitaev, custom nodes and non-orthogonal lattice vectors are outside; the lattice "
+              "comparison itself involves no solver. (c) Lattice(custom_edges=...) + spin_hamiltonian with one symbolic coefficient per custom edge on 10 lattices (1-3 dimensions, 1-2 sites per cell, "
+              "open / periodic / mixed boundaries, forward and backward edges): every Pauli-word coefficient equals the sum over the translated copies of the edge.",
          technique="lifted execution of the Hamiltonian builders on z3 real coupling terms; z3 QF_NRA coefficient-wise equality proofs; structural comparison of lattices"),
 ]
 
 CHECKS += [
-    dict(property_id="C53", category="proof", engine=E1,
+    dict(property_id="C53", category="other", engine=E1,
          text="Fermionic sentences with SYMBOLIC complex coefficients (10 words over 3 orbitals: ladder, hopping, number operators, repeated orbitals, identity) are mapped by the "
               "REAL jordan_wigner, parity_transform and bravyi_kitaev (3 and 4 qubits, ps=True); z3 proves Pauli word by Pauli word, for all coefficient values, linearity, "
               "multiplicativity M(s1*s2) == M(s1)@M(s2) (fermionic product of the library vs Pauli product of the images), M(adjoint) == adjoint(M) and invariance under "
               "shift_operator (the anticommutation step of normal ordering); the canonical anticommutation relations are checked on the images for all orbital pairs.",
-         note=PROOF_NOTE + " Unitary equivalence of the mappings is implied by the CAR on 2^n dimensions and not checked separately. Outside: wire_map / tol options, operator output, > 3 orbitals.",
+         note=PROOF_NOTE + " Unitary equivalence of the mappings is implied by the CAR on 2^n dimensions and not checked separately. Outside: wire_map / tol options, operator output, > 3 orbitals. "
+              "Category 'other': in the quick tier every obligation is discharged; the thorough tier takes all 64 operand pairs and 47 of its 17051 obligations stay undecided by z3 within 60 s (reported as inconclusive, never as success).",
          technique="lifted execution of the fermionic arithmetic and mappings on z3 complex-polynomial coefficients; z3 QF_NRA coefficient-wise equality proofs"),
 ]
 
@@ -472,9 +474,12 @@ CHECKS += [
               "contract states) the REAL kernel_matrix, square_kernel_matrix, polarity and target_alignment run on 1-4 data points and 4 label vectors, with and without "
               "normalisation and class-label rescaling; z3 proves every entry / value equal to the definition for ALL kernels (alignment after cross-multiplying its square roots "
               "plus a sign obligation) and the kernel is called exactly on the required pairs.",
-         note=PROOF_NOTE + " Category 'other' (partial): threshold / displace / flip / closest-PSD / depolarizing-mitigation post-processing are defined through eigendecompositions and "
-              "convex optimisation - positive semidefiniteness of their output is not a polynomial identity - and are outside; 4-point alignments stay inconclusive (z3 timeout).",
-         technique="lifted execution of the kernel utilities on an uninterpreted symbolic kernel; z3 QF_NRA equality proofs"),
+         note=PROOF_NOTE + " Spectral post-processing: threshold_matrix, displace_matrix and flip_matrix run on ALL real symmetric 2x2 and 3x3 matrices, written K = V diag(w) V^T with "
+              "symbolic Givens angles and ascending symbolic eigenvalues; numpy.linalg.eigh / eigvalsh (LAPACK) are replaced by their contract (they return this w, V). Per sign pattern of "
+              "the eigenvalues z3 proves result == V diag(f(w)) V^T with f the documented spectral map and f(w) >= 0 (a PSD certificate), y^T (V^T result V) y >= 0 for all y directly, "
+              "and no effect on matrices without negative eigenvalues. Category 'other' (partial): closest_psd_matrix (cvxpy), mitigate_depolarizing_noise and matrices larger than 3x3 "
+              "are outside; the 4-point alignments stay inconclusive (z3 timeout).",
+         technique="lifted execution of the kernel utilities on an uninterpreted symbolic kernel and on symbolically diagonalised matrices; z3 QF_NRA equality / inequality proofs"),
 ]
 
 CHECKS += [
